@@ -5,8 +5,11 @@
 (* PipeConn.tla.  Logged events (one ndjson line each):                    *)
 (*   reset{maxCq,dgram,qid0,rd}  new connection (resets the state)         *)
 (*   Reserve{c,o} Withdraw{c} Start{c,g}   API calls made by the controller*)
-(*   ConnWrite{c,g,wid,dead}     the code called Write (logged inside the  *)
-(*                               call); dead: the conn was already closed  *)
+(*   ConnWrite{c,g,wid,dead,bufok}  the code called Write (logged inside   *)
+(*                               the call); dead: the conn was already     *)
+(*                               closed; bufok: the caller's own query     *)
+(*                               buffer is unmodified at that instant      *)
+(*                               (ExchangeReserved MUST NOT modify q)      *)
 (*   WriteRet{c,ok}              the controller let that Write return      *)
 (*   ArmIdle                     reader called SetReadDeadline(idle)       *)
 (*   Deliver{c,g,n,wid}          last byte of a reply returned by Read;    *)
@@ -91,7 +94,7 @@ Logged ==
     \/ IsEvent("Reserve") /\ Reserve(Ev.c, Ev.o)
     \/ IsEvent("Withdraw") /\ Withdraw(Ev.c)
     \/ IsEvent("Start") /\ Start(Ev.c) /\ gen[Ev.c] = Ev.g
-    \/ IsEvent("ConnWrite") /\ gen[Ev.c] = Ev.g /\
+    \/ IsEvent("ConnWrite") /\ gen[Ev.c] = Ev.g /\ (("bufok" \in DOMAIN Ev) => Ev.bufok) /\
          IF Ev.dead THEN WriteDead(Ev.c)
          ELSE \/ Write(Ev.c) /\ qid[Ev.c] = Ev.wid
               \/ ResendEv(Ev.c) /\ qid[Ev.c] = Ev.wid
